@@ -50,12 +50,15 @@ structure Reg (K : Type) where
   implementation's numpy results. -/
   nReg : Nat
   lastOwn : K × K
+  /-- ghost: blow time of the newest point of that regression (where the two fits are compared:
+  comparing intercepts would extrapolate thousands of blows back and only measure conditioning) -/
+  lastX : K := lastOwn.1
 
 def Reg.init {K} [Num K] (inertia pealSpeed gap : K) (minBells maxBells : Int) (initialInertia : K) :
     Reg K :=
   { preferredInertia := inertia, initialInertia, pealSpeed, gap, minBells, maxBells, stage := 0,
     start := .fin (Num.ofNat 0), interval := Num.ofNat 0, expected := [], dataSet := [],
-    shouldReturn := false, nReg := 0, lastOwn := (Num.ofNat 0, Num.ofNat 0) }
+    shouldReturn := false, nReg := 0, lastOwn := (Num.ofNat 0, Num.ofNat 0), lastX := Num.ofNat 0 }
 
 def Reg.line {K} [Num K] (r : Reg K) (start : K) : Line K :=
   { stage := r.stage, gap := r.gap, start, interval := r.interval }
@@ -92,7 +95,7 @@ def Reg.addDataPoint {K} [Num K] (r : Reg K) (reg : List (K × K × K) → K × 
   let r1 := { r with dataSet := ds3 }
   if Num.eqb inertia (Num.ofNat 1) then r1
   else if r.minBells ≤ (ds3.length : Int) then
-    ({ r1 with nReg := r.nReg + 1, lastOwn := regress ds3 }).relerp (reg ds3) inertia
+    ({ r1 with nReg := r.nReg + 1, lastOwn := regress ds3, lastX := r.blowTime row place }).relerp (reg ds3) inertia
   else r1
 
 /-- What `wait_for_bell_time` of the regression rhythm does. -/
